@@ -98,6 +98,7 @@ def run(ck):
             ok = cfg.ev_dominates(dom, qp[0], wr[0]) and is_efd(wr[0]["args"][0])
             # conditions guarding the write
             guards = []
+            avoid = {}
             for b in f.blocks.values():
                 if b.term and len([s for s in b.succs if s is not None]) == 2 and b.id in dom.get(wr[0].block, ()) and b.id != wr[0].block:
                     # does some successor avoid the write?
@@ -105,6 +106,7 @@ def run(ck):
                         evs = cfg.events_from_block(f, s)
                         if not any(x is wr[0] for x in evs):
                             guards.append(b)
+                            avoid[b.id] = k
                             break
             gtxt = [g.term.get("cond") for g in guards]
             # each guarding block may only evaluate isBound(): use the references of the leaf the block really tests
@@ -112,9 +114,12 @@ def run(ck):
                 lr = [strip_tmpl(r) for r in (g.term.get("leafrefs") or g.term.get("refs") or [])]
                 return "c:Pistache::PollableQueue::isBound" in lr and not [r for r in lr if r.startswith("v:") and r != "v:this"]
             ok = ok and all(only_bound(g) for g in guards)
+            # ... and with the right polarity: the arm that skips the signal is the one on which the queue is NOT bound
+            polarity = all(avoid[g.id] == (0 if g.term.get("neg") else 1) for g in guards if only_bound(g))
+            ok = ok and polarity
             # the push must not itself be conditional
             ok = ok and qp[0].block in dom[f.exit] if f.exit in dom else ok
-            detail = "Queue::push@%s dominates write(event_fd)@%s; write guarded by %s" % (qp[0].get("l"), wr[0].get("l"), gtxt)
+            detail = "Queue::push@%s dominates write(event_fd)@%s; write guarded by %s%s" % (qp[0].get("l"), wr[0].get("l"), gtxt, "" if polarity else " -- but the signal is skipped on the arm on which the queue IS bound")
         ck.ob("C13-R1", "PollableQueue::push", ok, f.loc, f, detail)
 
     # ---------------- R2 ----------------
@@ -205,6 +210,7 @@ def run(ck):
             ck.ob("C13-R4", "consumer-callers:" + f.base, not extra, f.loc, f, "called from %s" % sorted(callers))
             # R3: loop until null
             okd, why = lib.drain_loop_check(f, e)
+            ck.require(okd is not None, "%s: %s" % (f.base, why))
             ck.ob("C13-R3", "drain-loop:" + f.base, okd, e.loc, f, why)
 
     # tail written only in pop / ctor
